@@ -5,7 +5,7 @@ set -u
 patch="$1"; shift
 if ! git -C /repo diff --quiet; then echo "with_patch: /repo is dirty, refusing" >&2; exit 3; fi
 if ! git -C /repo apply "$patch"; then echo "with_patch: patch does not apply" >&2; exit 3; fi
-trap 'git -C /repo checkout -- . ' EXIT
+trap 'git -C /repo checkout -- . ; (cd /verif/harness && CARGO_NET_OFFLINE=true cargo build --bin vcheck >/dev/null 2>&1)' EXIT
 "$@"
 rc=$?
 exit $rc
